@@ -26,6 +26,9 @@ enum Item {
     ErrE,
     ErrW,
     ErrERich,
+    /// an error / a warning that is the same, leaf for leaf, every time it occurs in the reply
+    ErrESame,
+    ErrWSame,
     Comment,
     Foreign,
     Count(usize),
@@ -50,6 +53,11 @@ fn render(items: &[Item], next_err: &mut usize, errors: &mut Vec<(usize, bool)>)
                 s.push_str(&rpc_error(*next_err, sev, *it == Item::ErrERich));
                 errors.push((*next_err, *it != Item::ErrW));
                 *next_err += 1;
+            }
+            Item::ErrESame | Item::ErrWSame => {
+                let (i, sev) = if *it == Item::ErrESame { (900, "error") } else { (901, "warning") };
+                s.push_str(&rpc_error(i, sev, false));
+                errors.push((i, *it == Item::ErrESame));
             }
             Item::Comment => s.push_str("<!-- note -->"),
             Item::Foreign => s.push_str("<foreign xmlns=\"urn:example:foreign\">x</foreign>"),
@@ -85,9 +93,9 @@ fn cases(kind: Kind, max_len: usize) -> Vec<Case> {
     match kind {
         Kind::Empty | Kind::Data | Kind::Bare => {
             let alpha: Vec<Item> = match kind {
-                Kind::Empty => vec![Item::Ok, Item::ErrE, Item::ErrW, Item::ErrERich, Item::Comment, Item::Foreign, Item::Data],
-                Kind::Data => vec![Item::Data, Item::ErrE, Item::ErrW, Item::ErrERich, Item::Comment, Item::Foreign, Item::Ok],
-                _ => vec![Item::ErrE, Item::ErrW, Item::ErrERich, Item::Comment, Item::Foreign, Item::Ok],
+                Kind::Empty => vec![Item::Ok, Item::ErrE, Item::ErrW, Item::ErrERich, Item::ErrESame, Item::ErrWSame, Item::Comment, Item::Foreign, Item::Data],
+                Kind::Data => vec![Item::Data, Item::ErrE, Item::ErrW, Item::ErrERich, Item::ErrESame, Item::Comment, Item::Foreign, Item::Ok],
+                _ => vec![Item::ErrE, Item::ErrW, Item::ErrERich, Item::ErrESame, Item::ErrWSame, Item::Comment, Item::Foreign, Item::Ok],
             };
             for seq in sequences(&alpha, max_len) {
                 let mut errors = Vec::new();
@@ -103,7 +111,7 @@ fn cases(kind: Kind, max_len: usize) -> Vec<Case> {
             }
         }
         Kind::Load => {
-            let inner_alpha = [Item::Ok, Item::ErrE, Item::ErrW, Item::Comment, Item::Count(0), Item::Count(1), Item::Count(2)];
+            let inner_alpha = [Item::Ok, Item::ErrE, Item::ErrW, Item::ErrESame, Item::Comment, Item::Count(0), Item::Count(1), Item::Count(2)];
             let outer_alpha = [Item::ErrE, Item::ErrW, Item::Ok, Item::Comment];
             for inner in sequences(&inner_alpha, max_len) {
                 // at most one count element, anywhere
